@@ -958,7 +958,10 @@ func runScript(sc *Script, out *bufio.Writer, watchdog time.Duration) {
 		sig, detail := s.diagnose()
 		confirmed[sig] = true
 		hangs[sig]++
-		rec.add("timeout", "sig", sig, "detail", detail, "waited_s", int(watchdog.Seconds()))
+		idle := rec.idleFor()
+		// waited_s: time without any event when the driver gave up; less than the watchdog only when a
+		// goroutine dump with the same structural signature had already got the full bound in this process
+		rec.add("timeout", "sig", sig, "detail", detail, "waited_s", int(idle.Seconds()), "watchdog_s", int(watchdog.Seconds()))
 		// try to get rid of it; whatever happens now is not part of the verdict
 		func() {
 			defer func() { _ = recover() }()
